@@ -39,7 +39,9 @@ def run_case(job):
     msgs = []
     try:
         box.build(tree.spec("in"))
-        out = {"abs": box.path("outside", "out"), "rel": "out", "nested": "in/gen/docs", "prepop": "out"}[outmode]
+        child = tree.rel(1) if len(parents) > 1 else "gen"
+        out = {"abs": box.path("outside", "out"), "rel": "out", "nested": "in/gen/docs", "prepop": "out",
+               "nested-in-subdir": f"in/{child}/_rst/deep"}[outmode]
         pre = {}
         if outmode == "prepop":
             pre = {"out/foreign.txt": "keep me\n", "out/old.rst": "stale page\n", "out/keep/x.rst": "x\n"}
@@ -66,7 +68,7 @@ def run_case(job):
                 for fn in fs:
                     k = dirmodel._join(rel, dirmodel.stem(fn) + ".rst")
                     if k in got:
-                        alone = dirmodel.page_alone(fsbox.cmake_content(rel + "/" + fn))
+                        alone = dirmodel.page_alone(fsbox.cmake_content(fn))
                         if dirmodel.strip_identity(got[k]) != alone:
                             msgs.append(f"content: page {k} differs from the single-file rendering of {rel}/{fn}")
             nproc = sum(len(v) for v in walk.values())
@@ -91,7 +93,7 @@ def jobs_for(tier):
                     continue   # non-recursive runs only look at the root directory
                 jobs.append((parents, a, recursive, auto, prefix, "abs", None))
             if nvar <= 1:
-                for outmode in ("rel", "nested", "prepop"):
+                for outmode in ("rel", "nested", "prepop", "nested-in-subdir"):
                     for recursive in (True, False):
                         jobs.append((parents, a, recursive, True, None, outmode, None))
     if not quick:
